@@ -370,6 +370,171 @@ def run_reuse_case(torch, I, kind, prim, init, ambient, steps):
 
 
 # ==================================================================================================
+# EVERY feature in BOTH of its forms -- get(None) (all time steps at once: what a hedger whose inputs are all state-independent
+# asks for) and get(i) (one step: what a state-dependent hedger asks for) -- is in the dtype of the instrument's buffers, whatever
+# the ambient default dtype is at the time of the evaluation; and so are the inputs / hedge / portfolio / P&L of a hedger with
+# parameter-free model that has the feature among its inputs (beside state-independent companions only, and beside prev_hedge).
+
+FB_FEATS = ["moneyness", "log_moneyness", "time_to_maturity", "underlier_spot", "underlier_log_spot", "volatility", "variance",
+            "zeros", "ones", "empty", "barrier_up", "barrier_down", "max_moneyness", "max_log_moneyness", "spot",
+            "module_output:mix", "module_output:naked", "module_output:black_scholes"]
+FB_COMPANIONS = ["moneyness", "log_moneyness", "time_to_maturity", "zeros", "ones", "underlier_spot", "max_moneyness"]
+FB_DERIVS = ["EuropeanOption", "LookbackOption", "EuropeanBinaryOption", "AmericanBinaryOption"]
+_MIX = []
+
+
+def _Mix():
+    if not _MIX:
+        import torch
+
+        class Mix(torch.nn.Module):
+            """a parameter-free module: a bounded function of all its input features"""
+            def forward(self, input):
+                return input.sum(-1, keepdim=True).tanh()
+        _MIX.append(Mix)
+    return _MIX[0]()
+
+
+def fb_feature(name, d, thr):
+    """a fresh (unbound) feature object"""
+    import pfhedge.features as F
+    from pfhedge.nn import Naked, BlackScholes
+    if name == "barrier_up":
+        return F.Barrier(thr, up=True)
+    if name == "barrier_down":
+        return F.Barrier(thr, up=False)
+    if name == "module_output:mix":
+        return F.ModuleOutput(_Mix(), inputs=["log_moneyness", F.Barrier(thr, up=True), F.Ones()])
+    if name == "module_output:naked":
+        return F.ModuleOutput(Naked(), inputs=["empty", "time_to_maturity", F.Barrier(thr, up=False)])
+    if name == "module_output:black_scholes":
+        m = BlackScholes(d)
+        return F.ModuleOutput(m, inputs=m.inputs())
+    return isys_feature(name)
+
+
+def fb_gen_case(g, ambient, dt):
+    stocks = ["BrownianStock", "HestonStock", "MertonJumpStock", "KouJumpStock", "RoughBergomiStock", "LocalVolatilityStock"]
+    how = g.choice(["init", "to", "method", "kw", "prim_to", "after_simulate", "after_simulate+resimulate"]) if dt is not None else None
+    return {"feature_battery": True, "primary": g.choice(stocks), "derivative": g.choice(FB_DERIVS), "dtype": dt, "cast": how,
+            "ambient": ambient, "ambient_eval": g.choice([None, None, "f32", "f64"]), "n_paths": g.choice([1, 2, 3]),
+            "maturity_steps": g.choice([2, 3, 5]), "threshold": g.choice([0.9, 1.0, 1.02, 3.0]), "listed": g.chance(0.5),
+            "companion": g.choice(FB_COMPANIONS), "step": g.choice([0, 1, "last"]),
+            "prev_hedge": sorted(set(g.choice(FB_FEATS) for _ in range(5))),     # the features that ALSO go through a state-dependent hedger
+            "model": g.choice(["naked", "param_free"])}
+
+
+def run_feature_case(torch, I, case):
+    """-> ('ok', instrument dtype, {feature: {quantity: dtype | ['backend', msg] | ['error', kind]}}) | ('backend', msg)"""
+    from pfhedge.nn import Hedger, Naked
+    torch.set_default_dtype(tdt(torch, case["ambient"]))
+    dt, how = case["dtype"], case["cast"]
+    tdtype = tdt(torch, dt)
+    try:
+        with torch.no_grad():
+            kw = {"dtype": tdtype} if how == "init" else {}
+            if case["primary"] == "LocalVolatilityStock":
+                stock = I.LocalVolatilityStock(lambda t, s: torch.full_like(s, 0.2), cost=1e-4, **kw)
+            else:
+                stock = getattr(I, case["primary"])(cost=1e-4, **kw)
+            m = case["maturity_steps"]
+            d = getattr(I, case["derivative"])(stock, maturity=m / 250)
+
+            def cast():
+                if how in ("to", "after_simulate", "after_simulate+resimulate"):
+                    d.to(tdtype)
+                elif how == "method":
+                    {"f16": d.half, "bf16": d.bfloat16, "f32": d.float, "f64": d.double}[dt]()
+                elif how == "kw":
+                    d.to(dtype=tdtype)
+                elif how == "prim_to":
+                    stock.to(tdtype)
+            if how in ("to", "method", "kw", "prim_to"):
+                cast()
+            if case["listed"]:
+                d.list(_listed_pricer, cost=1e-4)
+            try:
+                d.simulate(n_paths=case["n_paths"])
+                if how in ("after_simulate", "after_simulate+resimulate"):
+                    cast()
+                if how == "after_simulate+resimulate":
+                    d.simulate(n_paths=case["n_paths"])
+            except (RuntimeError, NotImplementedError) as e:
+                return ("backend", str(e)[:80])
+            if case["ambient_eval"] is not None:
+                torch.set_default_dtype(tdt(torch, case["ambient_eval"]))
+            spot = stock.spot
+            want = spot.dtype
+            n_steps = spot.size(1)
+            step = n_steps - 1 if case["step"] == "last" else min(case["step"], n_steps - 1)
+            out = {}
+            for name in FB_FEATS:
+                if name == "spot" and not case["listed"]:
+                    continue
+                if name in ("volatility", "variance"):
+                    try:
+                        getattr(stock, name)
+                    except AttributeError:
+                        continue
+                res = out[name] = {}
+
+                def rec(key, fn):
+                    try:
+                        res[key] = short(torch, fn().dtype)
+                    except Exception as e:  # noqa
+                        k = isys_kind_of_error(e)
+                        res[key] = ["backend", k[1]] if k[0] == "backend" else ["error", k[1] + ": " + str(e)[:120]]
+                f = fb_feature(name, d, case["threshold"]).of(d)
+                rec("get(None)", lambda: f.get(None))
+                rec("get(i)", lambda: f.get(step))
+                rec("get(0)", lambda: f.get(0))
+                variants = [False] + ([True] if name in case["prev_hedge"] else [])
+                for sd in variants:
+                    inputs = [fb_feature(name, d, case["threshold"]), isys_feature(case["companion"])] + (["prev_hedge"] if sd else [])
+                    h = Hedger(Naked() if case["model"] == "naked" else _ParamFree(), inputs)
+                    tag = "hedger+prev_hedge:" if sd else "hedger:"
+                    rec(tag + "hedge", lambda: h.compute_hedge(d))
+                    if not sd:
+                        rec(tag + "input(None)", lambda: h.get_input(d, None))
+                        rec(tag + "input(i)", lambda: h.get_input(d, step))
+                    else:
+                        # (what the model of a state-dependent hedger is fed with: prev_hedge reads the hedger's state)
+                        rec(tag + "input(i)", lambda: h.inputs.of(d, h).get(step))
+                    rec(tag + "portfolio", lambda: h.compute_portfolio(d))
+                    rec(tag + "pl", lambda: h.compute_pl(d))
+            return ("ok", short(torch, want), out)
+    finally:
+        torch.set_default_dtype(torch.float32)
+
+
+def fb_isys_scenario(g, ambient, dt):
+    """the same class for the system model: every feature of the model's vocabulary (get(None)) and a hedger on each, on an instrument of
+    every dtype under both ambient defaults, with a change of the ambient default between the simulation and the evaluation"""
+    stocks = ["BrownianStock", "HestonStock", "MertonJumpStock", "KouJumpStock", "RoughBergomiStock", "LocalVolatilityStock"]
+    m = g.choice([2, 3, 5])
+    by_init = dt is None or g.chance(0.5)
+    scen = {"ambient": ambient, "prims": [[g.choice(stocks), dt if by_init else None]],
+            "derivs": [[g.choice(FB_DERIVS), 0, m], ["EuropeanOption", 0, m]], "cmds": [], "forms": []}
+
+    def add(c, form=None):
+        scen["cmds"].append(c)
+        scen["forms"].append(form)
+    if not by_init:
+        add(["deriv_to", g.choice([0, 1]), ["dtype", dt]], g.choice(["to", "method", "kw"]))
+    add(["list", 1, "spot"], "intrinsic")
+    add(["deriv_sim", g.choice([0, 1]), g.choice([1, 2, 3]), isys_steps(m / 250)])
+    if g.chance(0.5):
+        add(["default", g.choice(["f32", "f64"])])
+    for name in ISYS_FEATS:
+        k = g.choice([0, 1])
+        add(["ask", ["feature", k, name]])
+        if name != "prev_hedge":
+            add(["ask", [g.choice(["hedge", "pl", "portfolio"]), k,
+                         {"model": "naked", "feats": [name, g.choice(["moneyness", "zeros", "time_to_maturity"])], "hedge": None}]])
+    return scen
+
+
+# ==================================================================================================
 # the SYSTEM model (lean/PfVerif/Model/InstrSys.lean, driver op "instr_sys"): primaries, derivatives over them, listed
 # derivatives, hedgers; after every operation the declared dtype, every buffer's dtype / shape / tensor identity and the dtype /
 # shape / error kind of payoff, features, listed price, hedge, portfolio, P&L, loss and price are compared exactly.
@@ -1134,6 +1299,39 @@ def check(ctx):
                          "loss / price are not in the instruments' dtype (state carried over from the previous use?)", c2,
                          key=f"dtype:hedger-reuse:{kind}", detail={"instrument": inst_dt, "wrong": wrong, "results": res})
                 break
+    # ---------------- every feature in both forms (all steps at once / one step) and hedgers fed with it, on instruments of every dtype
+    # under both ambient defaults (a deterministic grid ambient x dtype on every tier, random draws of everything else; predicate only)
+    fb_cases = [fb_gen_case(g, amb, dt) for amb in ("f32", "f64") for dt in (None, "f16", "bf16", "f32", "f64")]
+    for _ in range(0 if ctx.tier == "quick" else 60):
+        fb_cases.append(fb_gen_case(g, g.choice(["f32", "f64"]), g.choice([None, "f16", "bf16", "f32", "f64"])))
+    for case in fb_cases:
+        r = run_feature_case(torch, I, case)
+        ctx.case(case, nontrivial=True, tag="feature_battery")
+        ctx.traces += 1
+        if r[0] == "backend":
+            ctx.stats["backend_unsupported"] += 1
+            continue
+        _, inst_dt, out = r
+        ctx.stats[f"feature_battery:instrument={inst_dt}:ambient={case['ambient_eval'] or case['ambient']}"] += 1
+        for name, res in out.items():
+            for q, v in res.items():
+                if isinstance(v, list) and v[0] == "backend":
+                    ctx.stats["feature_battery:backend_unsupported"] += 1
+                    continue
+                ctx.stats["feature_battery:checked_dtypes"] += 1
+                form = q if q.startswith("get(") else q.split(":")[0]
+                if isinstance(v, list):
+                    ctx.fail("evaluating a feature (or a hedger that has it among its inputs) on a simulated instrument raised", case | {"feature": name, "quantity": q},
+                             key=f"dtype:feature:error:{name}", detail=v[1])
+                elif v != inst_dt and q.startswith("get("):
+                    ctx.fail("a feature is not in the dtype of the instrument it is computed from (the form get(None) gives all time steps at once, "
+                             "get(i) one step; the ambient default dtype differs from the instrument's)", case | {"feature": name, "quantity": q},
+                             key=f"dtype:feature:{name}:{'get(None)' if q == 'get(None)' else 'get(i)'}",
+                             detail={"instrument": inst_dt, "feature dtype": v, "all": res})
+                elif v != inst_dt:
+                    ctx.fail("hedger input / hedge / portfolio / P&L of a parameter-free hedger with this feature among its inputs is not in the "
+                             "instruments' dtype", case | {"feature": name, "quantity": q},
+                             key=f"dtype:hedger-feature:{name}:{form}", detail={"instrument": inst_dt, "dtype": v, "all": res})
     # ---------------- the system model (Model/InstrSys.lean)
     sys_items = []                                  # (tag, scenario, real execution)
     t_sys = time.time()
@@ -1149,7 +1347,9 @@ def check(ctx):
         exh += isys_exhaustive(4, [0, 1, 3, 4, 5, 6, 8])
     rnd = [isys_gen_scenario(g, g.randint(1, 8 if ctx.tier == "quick" else 14), 3) for _ in range(500 if ctx.tier == "quick" else 3000)]
     ctx.extra["instr_sys_exhaustive_sequences"] = len(exh)
-    for tag, scens in (("exhaustive", exh), ("random", rnd)):
+    # every feature of the model's vocabulary and a hedger on each: the grid ambient x instrument dtype (every tier)
+    fcorp = [fb_isys_scenario(g, amb, dt) for amb in ("f32", "f64") for dt in (None, "f16", "bf16", "f32", "f64")]
+    for tag, scens in (("exhaustive", exh), ("random", rnd), ("feature_corpus", fcorp)):
         for scen in scens:
             real = isys_run_real(torch, I, scen)
             if real[0] is None:
